@@ -89,6 +89,11 @@ def judge_document(data, fmt, blanks, minT, maxT, thr, text):
         if fmt != "json" and (not TC.match_time(t["min"], dt["xmin"]) or not TC.match_time(t["max"], dt["xmax"])):
             return False, "tier %r span [%r, %r], in memory [%r, %r]" % (t["name"], dt["xmin"], dt["xmax"], t["min"], t["max"]), classes
         dec = dt["entries"]
+        if blanks and (minT is not None or maxT is not None):
+            # a span that was asked for is the span of everything in the file: no entry of any tier may lie outside it
+            out = [e for e in dec if e[0] < doc["xmin"] and not TC.match_time(doc["xmin"], e[0]) or e[-2] > doc["xmax"] and not TC.match_time(doc["xmax"], e[-2])]
+            if out:
+                return False, "tier %r: entry %r lies outside the file's span [%r, %r]" % (t["name"], out[0], doc["xmin"], doc["xmax"]), classes
         if t["t"] == "I" and blanks:
             classes.append("C02:partition-checked")
             if not dec:
@@ -167,7 +172,7 @@ def _str_post(ctx):
         # a raise is legitimate only for an entry outside the requested span with blank filling on (C04); anything else is judged
         lo = data["min"] if minT is None else minT
         hi = data["max"] if maxT is None else maxT
-        outside = any(t["t"] == "I" and t["entries"] and (t["entries"][0][0] < lo or t["entries"][-1][1] > hi) for t in data["tiers"])
+        outside = any(t["entries"] and (t["entries"][0][0] < lo or t["entries"][-1][-2] > hi) for t in data["tiers"])  # intervals and points alike
         if blanks and outside:
             REC.skip("decode", "entry-outside-requested-span")
             return
@@ -325,6 +330,14 @@ def workload(tier, rng, shard, nshards, work):
                         maxT = (last + data["max"]) / 2
                     elif r == 4 and data["min"] > 0:
                         minT = 0.0
+                    elif r == 5 and blanks:
+                        # the requested end lies behind every interval and before the last point: the writer refuses (C04) - or, if it
+                        # writes, the document must not hold a point beyond its own xmax
+                        ilast_ = max([t["entries"][-1][1] for t in data["tiers"] if t["t"] == "I" and t["entries"]] + [data["min"]])
+                        plast_ = max([t["entries"][-1][0] for t in data["tiers"] if t["t"] == "P" and t["entries"]] + [data["min"]])
+                        if plast_ > ilast_ and (ilast_ + plast_) / 2 > data["min"]:
+                            maxT = (ilast_ + plast_) / 2
+                            REC.cls("C02:override-between-last-interval-and-last-point")
                     if k % 7 == 0:
                         fn = os.path.join(str(work), "w%d" % (k % 3))
                         call(tg.save, fn, fmt, blanks, minT, maxT, thr, ("silence", "warning", "silence", "error")[(k // 7) % 4])
